@@ -623,6 +623,299 @@ def run_gate(ctx, ncfg, npay):
     return evals, len(nontriv), samples
 
 
+# ---- attempt sequences: the gate is stateless — EVERY attempt is judged on the payload presented in THAT attempt
+
+def _admin_sid(w, tid):
+    try:
+        return w.sio.manager.sid_from_eio_sid(tid, ADMIN_NS)
+    except Exception:   # noqa
+        return None
+
+
+def _admin_mentions(w, tid):
+    return [m for m in mentions_of(w, tid) if m.startswith('rooms[%s]' % ADMIN_NS)]
+
+
+def gen_sequence(rng, auth, targets, nsteps):
+    """steps over 2-3 logical clients of ONE server instance:
+    ['attempt', client, label, payload|'ABSENT', raw] | ['leave', c] (client sends 1/admin,) | ['kick', c] (server
+    disconnect(sid, namespace=/admin)) | ['app', c] (application-namespace traffic) | ['drop', c] (transport lost; the
+    client's next step uses a fresh transport) | ['stats'] (one round of the admin statistics broadcast)"""
+    nclients = rng.randint(2, 3)
+    steps = []
+    good = lambda: ('exact', copy.deepcopy(rng.choice(targets)), None)     # noqa
+    while len(steps) < nsteps:
+        c = rng.randrange(nclients)
+        r = rng.random()
+        if r < 0.56:
+            if rng.random() < 0.42:
+                label, p, raw = good()
+            else:
+                label, p, raw = gen_payload(rng, targets)
+                if p is not ABSENT and not _wireable(p):
+                    continue
+                if auth['kind'] == 'pred' and p is not ABSENT and p is not None and not p:
+                    continue            # KNOWN_FALSY region: exercised (and recorded) by the single-attempt part
+                pres = presented(p, raw)
+                if pres is None:
+                    continue
+                label, p, raw = label + pres[0], pres[1], pres[2]
+                if auth['kind'] == 'pred' and p is not ABSENT and p is not None and not p:
+                    continue
+            steps.append(['attempt', c, label, 'ABSENT' if p is ABSENT else p, raw])
+        elif r < 0.74:
+            steps.append(['leave', c])
+        elif r < 0.82:
+            steps.append(['kick', c])
+        elif r < 0.92:
+            steps.append(['app', c])
+        elif r < 0.96:
+            steps.append(['drop', c])
+        else:
+            steps.append(['stats'])
+    return steps
+
+
+def execute_sequence(case):
+    """-> list of per-step observations (attempt steps: verdict, membership, who received the probe broadcast)"""
+    auth = case['auth']
+    g = GateServer(case['family'], auth, case['mode'], case['read_only'], case['always_connect'])
+    w = g.w
+    out = []
+    tids, gen_no = {}, {}
+    try:
+        if w.is_async:
+            async def hello(sid, *a):
+                return None
+        else:
+            def hello(sid, *a):
+                return None
+        w.sio.on('hello', hello)
+
+        def tid_of(c):
+            if tids.get(c) is None:
+                gen_no[c] = gen_no.get(c, 0) + 1
+                tids[c] = 'Q%d_%d' % (c, gen_no[c])
+                w.open(tids[c])
+                w.sent(tids[c])
+            return tids[c]
+
+        def probe(i):
+            """a broadcast to the admin namespace after the step: who receives it?"""
+            for t in tids.values():
+                if t is not None:
+                    w.sent(t)
+            w.api('emit', 'verif_probe', {'n': i}, namespace=ADMIN_NS)
+            got = []
+            for c, t in sorted(tids.items()):
+                if t is None:
+                    continue
+                pk = pycodec.decode_stream([f for f in w.sent(t) if isinstance(f, str)])
+                if any(p['type'] == 2 and p['ns'] == ADMIN_NS and isinstance(p['data'], list) and p['data'][:1] ==
+                       ['verif_probe'] for p in pk):
+                    got.append(c)
+            return got
+
+        for i, st in enumerate(case['steps']):
+            ob = {'step': i, 'kind': st[0]}
+            if st[0] == 'stats':
+                ob['ran'] = run_stats_once(w, g.inst, g.parked)
+            else:
+                c = st[1]
+                t = tid_of(c)
+                ob['tid'] = t
+                if st[0] == 'attempt':
+                    payload = ABSENT if st[3] == 'ABSENT' else st[3]
+                    if _admin_sid(w, t) is not None:
+                        w.recv(t, '1' + ADMIN_NS + ',')          # a member asks again only after leaving
+                        w.settle()
+                        ob['left_first'] = True
+                    w.sent(t)
+                    g.pred_args.clear()
+                    res, contained = w.recv(t, connect_frame(payload, st[4]))
+                    pkts = pycodec.decode_stream([f for f in w.sent(t) if isinstance(f, str)])
+                    kinds = [p['type'] for p in pkts if p['type'] in (0, 1, 4) and p['ns'] == ADMIN_NS]
+                    if res[0] == 'exc' or contained:
+                        ob['verdict'] = 'raised'
+                    elif kinds == [0]:
+                        ob['verdict'] = 'accepted'
+                    elif kinds == [4] or kinds == [0, 1]:
+                        ob['verdict'] = 'refused'
+                    else:
+                        ob['verdict'] = 'odd:%r' % (kinds,)
+                    ob['pred_calls'] = len(g.pred_args)
+                    w.settle()
+                    ob['member'] = _admin_mentions(w, t)
+                elif st[0] == 'leave':
+                    w.recv(t, '1' + ADMIN_NS + ',')
+                    w.settle()
+                elif st[0] == 'kick':
+                    sid = _admin_sid(w, t)
+                    if sid is not None:
+                        ob['api'] = w.api('disconnect', sid, namespace=ADMIN_NS)[0]
+                        w.settle()
+                elif st[0] == 'app':
+                    w.recv(t, '0')
+                    w.recv(t, '2["hello",%d]' % i)
+                    w.settle()
+                elif st[0] == 'drop':
+                    w.lose(t)
+                    w.settle()
+                    ob['leftover'] = mentions_of(w, t)
+                    del w.socks[t]
+                    tids[c] = None
+            ob['probe_received_by'] = probe(i)
+            ob['admin_members'] = sorted(c for c, t in tids.items() if t is not None and _admin_mentions(w, t))
+            out.append(ob)
+    finally:
+        for t in list(w.socks):
+            try:
+                w.lose(t)
+            except Exception:   # noqa
+                pass
+        w.background.clear()
+        g.close()
+    return out
+
+
+def judge_sequence(case, obs):
+    """The statement on every attempt of the sequence, history-free. -> (complaints, index of the first bad step)"""
+    auth = case['auth']
+    entitled = {}                   # client -> its latest attempt is one the statement admits, and it has not left since
+    for st, ob in zip(case['steps'], obs):
+        i = ob['step']
+        if st[0] == 'attempt':
+            c = st[1]
+            payload = ABSENT if st[3] == 'ABSENT' else st[3]
+            want = statement(auth, payload)
+            got = ob['verdict']
+            hist = [s[:3] if s[0] == 'attempt' else s for s in case['steps'][:i]]
+            if got == 'raised' and not ob['member'] and not _real_decoder_accepts(connect_frame(payload, st[4])):
+                entitled[c] = False
+                continue
+            if got not in ('accepted', 'refused'):
+                return ['step %d: admin CONNECT of client %d was neither accepted nor refused (%s), payload %r against %r'
+                        % (i, c, got, payload, _auth_brief(auth))], i
+            if (got == 'accepted') != want:
+                return ['step %d: admin CONNECT of client %d (transport %s) %s although the payload presented in this '
+                        'attempt, %r, %s the configured %r; earlier steps on this server: %r'
+                        % (i, c, ob['tid'], got, None if payload is ABSENT else payload,
+                           'satisfies' if want else 'does not satisfy', _auth_brief(auth), hist)], i
+            if got == 'refused' and ob['member']:
+                return ['step %d: refused admin attempt of client %d left membership %r' % (i, c, ob['member'])], i
+            entitled[c] = want
+        elif st[0] in ('leave', 'kick', 'drop'):
+            entitled[st[1]] = False
+        for c in ob['probe_received_by']:
+            if not entitled.get(c):
+                return ['step %d: client %d receives a broadcast to the admin namespace although its latest attempt was '
+                        'refused / it left the namespace / it never asked' % (i, c)], i
+        for c in ob['admin_members']:
+            if not entitled.get(c):
+                return ['step %d: client %d is a member of the admin namespace although its latest attempt was refused / '
+                        'it left the namespace / it never asked' % (i, c)], i
+        if st[0] == 'drop' and ob.get('leftover'):
+            return ['step %d: client %d still referenced after its transport closed: %r' % (i, st[1], ob['leftover'])], i
+    return [], None
+
+
+def run_sequences(ctx, ncases, nsteps):
+    rng = ctx.rng
+    attempts = reattempts = after_good = probes = fails = 0
+    pending = []                    # (case, obs) for the model comparison, one driver batch
+    for ci in range(ncases):
+        auth, targets = gen_auth(rng)
+        if ci % 8 == 7:
+            auth = {'kind': 'val', 'val': rng.choice([False, {}, [], 0, ''])}         # authentication disabled
+        family = ('threading', 'asyncio')[ci % 2]
+        if auth['kind'] == 'pred' and auth.get('coro'):
+            family = 'asyncio'
+        case = {'part': 'sequence', 'family': family, 'auth': auth, 'mode': rng.choice(['development', 'production']),
+                'read_only': rng.random() < 0.5, 'always_connect': rng.random() < 0.3,
+                'steps': gen_sequence(rng, auth, targets, rng.randint(max(4, nsteps - 6), nsteps))}
+        obs = execute_sequence(case)
+        bad, at = judge_sequence(case, obs)
+        ctx.count('sequence.family.' + family)
+        ctx.count('sequence.auth.' + _auth_kind(auth))
+        seen_good, seen_any = set(), set()
+        for st, ob in zip(case['steps'], obs):
+            ctx.count('sequence.step.' + st[0])
+            if st[0] == 'attempt':
+                attempts += 1
+                payload = ABSENT if st[3] == 'ABSENT' else st[3]
+                want = statement(auth, payload)
+                ctx.count('sequence.attempt.%s.%s' % ('right' if want else 'wrong', ob.get('verdict')))
+                tkey = ob['tid']
+                if tkey in seen_any:
+                    reattempts += 1
+                if not want and (tkey in seen_good):
+                    after_good += 1
+                    ctx.count('sequence.wrong_payload_on_a_transport_admitted_before')
+                if not want and seen_good and tkey not in seen_good:
+                    ctx.count('sequence.wrong_payload_after_another_transport_was_admitted')
+                seen_any.add(tkey)
+                if want:
+                    seen_good.add(tkey)
+            probes += len(ob['probe_received_by'])
+        if bad:
+            fails += 1
+            if fails <= 5:
+                k = at + 1
+                ctx.violation('oracle', 'admin gate, attempt sequence on one server: ' + bad[0],
+                              dict(case, steps=case['steps'][:k], observed=obs[:k], complaints=bad))
+            continue
+        pending.append((case, obs))
+    # model: the gate of the Lean model has no memory — `adminConnect` on the payload of each attempt
+    ops, where = [], []
+    for case, obs in pending:
+        for st, ob in zip(case['steps'], obs):
+            if st[0] == 'attempt' and ob['verdict'] in ('accepted', 'refused'):
+                ops.append({'op': 'admits', 'auth': auth_wire(case['auth']),
+                            'payload': C.oj2w(None, present=False) if st[3] == 'ABSENT' else C.oj2w(st[3])})
+                where.append((case, ob))
+    mism = 0
+    for (case, ob), ans in zip(where, C.batch('admin', ops) if ops else []):
+        m = ans['connect']
+        if not isinstance(m, bool) or m != (ob['verdict'] == 'accepted') or ans['admits'] != m:
+            mism += 1
+            if mism <= 3:
+                k = ob['step'] + 1
+                ctx.violation('correspondence', 'attempt sequence: implementation %s at step %d, model adminConnect=%r '
+                              'admits=%r' % (ob['verdict'], ob['step'], m, ans['admits']),
+                              dict(case, steps=case['steps'][:k]), no_input=True)
+    ctx.coverage['gate_sequences'] = {
+        'sequences': ncases, 'attempts': attempts, 'attempts_on_a_transport_that_asked_before': reattempts,
+        'wrong_payload_on_a_transport_admitted_before': after_good, 'probe_broadcast_deliveries': probes,
+        'model_answers_compared': len(where), 'oracle_failures': fails, 'model_disagreements': mism,
+        'rule': 'one real instrumented Server / AsyncServer per sequence (dict / list / predicate / coroutine predicate / '
+                'disabled), 2-3 clients; steps: admin CONNECT with right or wrong payload (a member leaves first), client '
+                'DISCONNECT of the admin namespace, disconnect() by the server, application-namespace traffic, transport '
+                'loss + fresh transport, one statistics round; after every step a broadcast to the admin namespace. '
+                'Every attempt is admitted iff the statement holds for the payload of THAT attempt (and iff the model\'s '
+                'adminConnect says so); only clients whose latest attempt was admitted and who have not left are members / '
+                'receive the broadcast',
+    }
+    return attempts
+
+
+def replay_sequence(case):
+    obs = execute_sequence(case)
+    for st, ob in zip(case['steps'], obs):
+        extra = ''
+        if st[0] == 'attempt':
+            payload = ABSENT if st[3] == 'ABSENT' else st[3]
+            extra = ' payload=%r -> implementation %s, statement says %s, member=%r' % (
+                None if payload is ABSENT else payload, ob['verdict'],
+                'accept' if statement(case['auth'], payload) else 'refuse', ob['member'])
+        print('step %d: %s%s; admin broadcast received by clients %r' % (ob['step'], st[:2], extra,
+                                                                        ob['probe_received_by']))
+    bad, _at = judge_sequence(case, obs)
+    print('auth configured: %r' % (_auth_brief(case['auth']),))
+    print('verdict: %s' % ('property violated on the implementation: ' + bad[0] if bad else 'every attempt judged on its '
+                                                                                        'own payload'))
+    return 1 if bad else 0
+
+
 def run_constructor(ctx):
     """`auth=None` (the default) is refused by both constructors; model: `configure .missing`"""
     ans = C.batch('admin', [{'op': 'admits', 'auth': {'missing': True}, 'payload': C.oj2w(None, present=False)}])[0]
@@ -2160,12 +2453,14 @@ def run(ctx):
     n_reg = run_registry(ctx)
     n_eq = run_pyeq(ctx, ctx.scale(4000, 60000))
     ev_g, nt_g, samples_g = run_gate(ctx, ctx.scale(160, 1500), ctx.scale(22, 40))
+    ev_s = run_sequences(ctx, ctx.scale(64, 900), ctx.scale(14, 20))
     run_positive_control(ctx)
     npairs = ctx.scale(288, 3600)
     ev_p, nt_p, samples_p = run_pairs(ctx, npairs, ctx.scale(40, 60))
     ev_h, nt_h = run_http(ctx)
-    ctx.coverage['evaluations'] = ev_g + ev_p + n_eq + n_reg + ev_h
+    ctx.coverage['evaluations'] = ev_g + ev_p + n_eq + n_reg + ev_h + ev_s
     ctx.coverage['gate_attempts'] = ev_g
+    ctx.coverage['gate_sequence_attempts'] = ev_s
     ctx.coverage['pair_ops'] = ev_p
     ctx.coverage['distinct_nontrivial'] = nt_g + nt_p
     ctx.coverage['traces_validated_against_impl'] = ev_g + npairs
@@ -2205,6 +2500,8 @@ def replay(ctx, r):
         return 0
     if part == 'http':
         return replay_http(case)
+    if part == 'sequence':
+        return replay_sequence(case)
     if part == 'tie':
         v, text = execute_tie(case)
         print('model of the instrumented server vs real instrumented server: %s %s' % (v, text))
